@@ -686,9 +686,9 @@ def _measurement_rule(ctx, repo):
     # sampled three-qubit states
     rng = np.random.RandomState(11)
     G3 = [('h', q) for q in range(3)] + [('s', q) for q in range(3)] + [('cx', a, b) for a in range(3) for b in range(3) if a != b]
-    for _ in range(40):
+    for trial in range(120):
         ref = _RefTableau(3)
-        for k in rng.randint(len(G3), size=6):
+        for k in rng.randint(len(G3), size=(6 if trial < 40 else 9)):     # longer histories: outcomes that are certain with a sign made of i-phases (YY.XX = -ZZ)
             apply(ref, G3[k])
         for a in range(3):
             for bit in (0, 1):
@@ -699,7 +699,7 @@ def _measurement_rule(ctx, repo):
                     bad.setdefault('three-qubit', f'three-qubit tableau, measuring qubit {a} (bit {bit}): outcome {got}, reference {want}')
     for key in ('first-measurement', 'second-measurement', 'three-qubit'):
         ctx.ob('C13.g', f'{TAB}._measure:{key}', key not in bad, bad.get(key, ''), ci.mod.rel, mfn.lineno)
-    ctx.notes.append(f'C13.g compared {n_cmp} interpreted measurements on {len(seen)} distinct two-qubit tableaux and 40 three-qubit ones')
+    ctx.notes.append(f'C13.g compared {n_cmp} interpreted measurements on {len(seen)} distinct two-qubit tableaux and 120 three-qubit ones')
     if n_cmp < 100:
         raise AnalysisError('C13.g: too few measurement comparisons')
 
